@@ -87,12 +87,24 @@ class KeepOpen(io.BytesIO):
         super().close()
 
 
-def run_blocker(chunks, finaliser):
+def run_blocker(chunks, finaliser, hazards=False):
     """Perform write(chunk)... then the finaliser on a real Block1014; return the wrapped file's bytes."""
     f = KeepOpen()
     b = mciipm.Block1014(f)
-    for c in chunks:
-        b.write(c)
+    buf = bytearray(max([len(c) for c in chunks] + [1]))
+    for i, c in enumerate(chunks):
+        if hazards and i % 3 == 1:
+            # the caller re-uses one mutable buffer for every piece (readinto / pack_into style)
+            buf[:len(c)] = c
+            b.write(memoryview(buf)[:len(c)])
+            buf[:len(c)] = bytes(len(c))          # ... and overwrites it straight afterwards
+        else:
+            b.write(c)
+        if hazards and i % 4 == 2:
+            try:
+                b.write('text passed by mistake' * (1 + i))      # refused before anything is written
+            except TypeError:
+                pass
     if finaliser == 'finalise':
         b.finalise()
     elif finaliser == 'seek0':
@@ -165,6 +177,20 @@ def vbs_write_events(recs, blocked, fins=('close',), api='class', fileobj=None, 
         return events, data
     f = fileobj if fileobj is not None else io.BytesIO()
     fins = list(fins)
+    if api == 'mixed':
+        # the convenience method and the plain method mixed on one writer
+        w = mciipm.VbsWriter(f, blocked=blocked)
+        k = len(recs) // 2
+        w.write_many(recs[:k])
+        for r in recs[k:k + 1]:
+            w.write(r)
+        w.write_many(iter(recs[k + 1:]))
+        w.close()
+        events.append(ev('fin', 1))
+        f.seek(0)
+        data = f.read()
+        events.append(ev('file', 0, '', data))
+        return events, data
     if api == 'class2':
         # second realisation of the same history: the records are written outside any with-block, every
         # context-manager exit is a real `with writer: pass` (entered after whatever happened before)
